@@ -1,6 +1,7 @@
-\* exhaustive check of the closed model (history hidden by VIEW); mechanism constants = documented behaviour
-CONSTANTS Claims = {"c1", "c2", "c3"}  MaxNow = 40  MaxFaults = 1  MaxEnv = 3  MaxLen = 30
-          EA = 20  LT = 6  RT = 12  TolReady = 8  TolDisk = 4  PoolBg = {0, 4, 9}  OtherBg = {0, 5}  MaxBad = 2
+\* exhaustive check of the closed model (history hidden by VIEW): a pool claim and a standalone claim with their nodes;
+\* mechanism constants = documented behaviour
+CONSTANTS Claims = {"c1", "c2"}  MaxNow = 1000  MaxFaults = 1  MaxEnv = 2  MaxLen = 30
+          EA = 600  LT = 300  RT = 900  TolReady = 120  TolDisk = 60  PoolBg = {0}  OtherBg = {0}  MaxBad = 0  ReadyVals = {"True", "False"}
           ExpireSlack = 0  ExpireNever = "check"  GcOnProvListError = "abort"  GcOnLookupError = "skip"  GcReady = "check"
           LiveSlack = 0  RepairSlack = 0  RepairExtra = 0  RepairScope = "pool"  RepairOnListError = "abort"
 SPECIFICATION Spec
